@@ -18,7 +18,7 @@ which uses a structured syntax for representing conditional statements and belie
 import logging
 import os
 
-from antlr4 import CommonTokenStream, InputStream
+from antlr4 import CommonTokenStream, InputStream, Token
 from antlr4.error.ErrorListener import ErrorListener
 
 from inference.belief_base import BeliefBase
@@ -430,6 +430,7 @@ def parse_formula(string: str):
 
     # Parse formula rule
     tree = parser.formula()
+    _require_end_of_input(tokens)
     visitor = myVisitor()
     # Initialize sigcheck so visitVar can record variables without attribute errors
     visitor.sigcheck = []
@@ -488,7 +489,18 @@ def _getParseTree(ckbs_string):
     parser.addErrorListener(_ThrowingErrorListener())
 
     tree = parser.ckbs()
+    _require_end_of_input(stream)
     return tree
+
+
+def _require_end_of_input(token_stream):
+    """Reject input that continues after the parsed rule instead of silently ignoring it."""
+    if token_stream.LA(1) != Token.EOF:
+        leftover = token_stream.LT(1)
+        raise Exception(
+            f"Syntax error at line {leftover.line}, column {leftover.column}: "
+            f"unexpected input {leftover.text!r} after the end of the parsed text"
+        )
 
 
 class _ThrowingErrorListener(ErrorListener):
